@@ -88,6 +88,70 @@ CHECKS = {
              'indices every byte fetched must lie in the requested channel\'s extents (contiguous) or the chunk '
              'extents (interleaved/DAQmx) of the chunks overlapping the request, plus 4 tag bytes per segment in '
              'range; an index into the chunk just served must issue no read at all.'),
+    'C07': dict(
+        level='exploration', ref='DESIGN.md §4 C07',
+        technique='deterministic simulation: the real TdmsWriter driven by seeded write_segment programs on simulated / '
+                  'real storage with scheduler-chosen session ends and append sessions; reader output vs the '
+                  'concatenation / last-write-wins model after every session',
+        text='Seeded programs over every supported array dtype / list / string / datetime form and property value type '
+             '(integer width boundaries, NaN payloads, multi-byte text, nasty names), split into sessions by the '
+             'scheduler, written to SimFS paths, SimFile streams, BytesIO or real files; after each session the file is '
+             'read back and compared with the model of accepted calls; on-disk property types come from the '
+             'independent parser; inputs plainly inside the stated domain must be accepted. The recorded finding '
+             '(microsecond truncation) is masked only for the exact values it explains.'),
+    'C08': dict(
+        level='exploration', ref='DESIGN.md §4 C08',
+        technique='deterministic simulation: write trace of the real TdmsWriter on the simulated disk, checked after '
+                  'every write_segment by an independent strict structural parser (invariant while the run proceeds)',
+        text='After every write_segment of a seeded program the bytes appended by that call must parse as exactly one '
+             'self-consistent segment (offsets, every inner length field, raw size), root declared first, groups no '
+             'later than their channels, appends only, rejected calls leave no bytes; the index file must equal the '
+             'data file minus raw data with TDSm->TDSh, byte for byte.'),
+    'C09': dict(
+        level='exploration', ref='DESIGN.md §4 C09',
+        technique='deterministic simulation of two-file storage: index discovery through the os.path.isfile seam, index '
+                  'absent / stub-made / writer-made, crash of the data file under a complete index; with-index vs '
+                  'without-index runs compared',
+        text='Seeded two-file worlds on SimFS and real paths; read / open (+windows, chunk streams) / read_metadata '
+             'with and without the index must give identical objects, properties, lengths, dtypes and data, also '
+             'when the data file is cut inside its last segment; the index alone (path and TDSh stream) must give the '
+             'same metadata and refuse every data read.'),
+    'C10': dict(
+        level='exploration', ref='DESIGN.md §4 C10',
+        technique='deterministic simulation (fault-free): reader->writer composition through simulated storage; source '
+                  'and destination read with raw timestamps and compared; destination parsed by the strict parser; '
+                  'descriptor table checked',
+        text='Seeded non-DAQmx sources (stub- and writer-made; fragmented, typeless / empty / property-only channels, '
+             'strings, full-range raw timestamps, NI_Scale properties) are defragmented to paths and streams with and '
+             'without index; groups, channels, properties, lengths, bit-identical raw values, dtype (when len >= 1) and '
+             'scaled data must be preserved and the copy must be structurally valid.'),
+    'C13': dict(
+        level='exploration', ref='DESIGN.md §4 C13',
+        technique='deterministic simulation: op histories on eager and lazy handles over worlds with seeded NI_Scale '
+                  'graphs; per-operation invariants (purity, elementwise, lazy == eager) and an exact rational '
+                  'reference evaluator',
+        text='Seeded scale graphs (Linear / Polynomial / Table / Add / Subtract / DAQmx scaler inputs, arbitrary wiring, '
+             'channel / group / root placement, NI_Scaling_Status shadowing); scaled full reads are compared with an '
+             'independent exact evaluator (relative tolerance 1e-10, 2e-5 for float32 raw data); windows, indices and '
+             'chunk streams must equal slices of the scaled data on both handles; raw data must be byte-identical '
+             'before and after.'),
+    'C14': dict(
+        level='exploration', ref='DESIGN.md §4 C14',
+        technique='deterministic simulation: per-operation monitor over seeded read histories on eager and lazy handles '
+                  '(every raw type x no scaling / structural scale graphs / sensor scales / DAQmx)',
+        text='Every successful read in every world - full, window, slice, integer index, iteration element, channel- and '
+             'file-level chunk, empty window, zero-length channel - is checked: it is a numpy array whose dtype equals '
+             'channel.dtype (byte-order flag don\'t-care), scalars have the matching scalar type, full reads have '
+             'len(channel) elements.'),
+    'C20': dict(
+        level='fault_enumeration', ref='DESIGN.md §4 C20',
+        technique='deterministic simulation with fault injection on the simulated descriptor table: EIO at every read '
+                  'event, every structural field garbled, foreign index, close() at every position of an op history '
+                  'with suspended generators; /proc/self/fd sample on real files',
+        text='Per seeded world and API scenario (read, read_metadata, open+ops+close, with-open, defragment, TdmsWriter '
+             'with-block; path and stream; with and without index) the fault points are enumerated exhaustively: after '
+             'the call returns or raises no library-owned handle may be open and no caller-owned stream closed; close() '
+             'twice is a no-op; after close every read raises or returns the model\'s value.'),
 }
 
 NOT_APPLICABLE = [
